@@ -16,7 +16,7 @@ d = d[:d.index('\n### 9.6 Seeded changes')]
 d += '''
 ### 9.6 Seeded changes (mutation trials) and which checks catch them
 
-Four rounds of changes were written by fresh sub-agents that saw only the text of
+Five rounds of changes were written by fresh sub-agents that saw only the text of
 one property and a private worktree of `/repo` (nothing from `/verif`):
 round 1 (A, B for all twenty properties) asked for realistic slips needing
 something specific to manifest; round 2 (C, D for all twenty) told the agent,
@@ -35,11 +35,11 @@ alternative-configuration-only code, compiler-specific arms, one-slot caches,
 changes and further trigger kinds (buffer placement relative to pages and
 alignment classes, compile-time arms, declarations in `include/`, order of use
 of different object kinds, state surviving cleanup, values special to one
-variant).
+variant); round 5 (I, J) is described with its results below.
 Each change was confirmed with `tools/confirm_seeded.py` in a scratch worktree
 (clean tree: 30 tests pass, demonstration passes; changed tree: 30 tests pass,
 demonstration fails) and the checks were run with `VERIF_REPO=<patched
-worktree>` (quick tier; C07-C needs the thorough tier).  Everything is kept under
+worktree>` (quick tier; C07-C and C05-J need the thorough tier).  Everything is kept under
 `seeded/<id>-<X>/` (`patch.diff`, the demonstration, `README.md`, `meta.json`
 with what was run and which violation keys fired).  **All %d are caught** by
 the listed checks; about one in eight by the check of the property they
@@ -187,6 +187,39 @@ Checks strengthened because a seeded change was first missed:
   * *C19-G, C12-H*: tweak set to its current value again (C04 block and CTR histories, Arduino sequences).
   Caught at once in round 4: C03-G, C03-H (by C07), C04-H, C06-G, C06-H, C07-H, C08-H, C11-H, C12-H (by C06), C14-G (by
   C16), C14-H (by C04), C15-H, C19-H.
+* **Round 5 (I, J)** - the brief listed all eight earlier changes per property, said which monitor families now exist, and
+  asked for legal-but-rare parameter values, unusual call orders, values special to one variant, two-site changes, and
+  tool/Arduino specifics.  First missed and what was added:
+  * *C07-I*: Mantis tweak arrays whose tweaks agree in most bytes (big/little-endian block numbers in a 1..4-byte window,
+    one tweak for all blocks) - structured tweak arrays in the parallel histories.
+  * *C03-I, C04-I*: "this key is already loaded" shortcuts - histories now re-use keys the object had before (through either
+    key function, with length / rounds / mode drawn afresh) and keys *related* to earlier ones; C03 reaches the Mantis
+    inverse by re-keying the same key for the other mode in 1 case of 3.
+  * *C02-J, C18-I*: comparisons that look at the wrong half or the wrong length - `vh_related()` builds values whose 1/2/4-byte
+    segments are copies of another value's segments (halves repeated / swapped, one bit apart); used for the stored vs
+    per-call Mantis tweak (both directions), successive tweaks and successive keys.
+  * *C04-J*: a rewind computed from a 16-bit block count - C06 "long stream" cases: 0.5..1.3 MiB generated since the last
+    counter set, then key/tweak change in mid-batch, hashes compared across back ends.
+  * *C05-I*: `set_counter` with the counter the stream has already reached (next block / next 4- or 8-block batch).
+  * *C05-J*: position kept in 32 bits - needs > 4 GiB on one object: caught by the thorough tier (`drv_huge`), not by quick.
+  * *C01-I*: a fast path taken only for schedules at 4 mod 8 - relocated read-only schedule copies are now aligned only as
+    their type requires and walk through every residue (`vh_ro_copy_al`).
+  * *C14-I*: a refused request that has already written output - refused calls must leave the output buffer as it was
+    (history interpreters), plus ragged requests above 64 KiB (separate and in place).
+  * *C13-J*: CPU models were all made by masking the host's bits - added "leaf 7 reports only sub-leaf 0" and "other vendor
+    string, larger maximum leaf".
+  * *C12-I, C10-J*: C10 now also runs on `prod+W32` and `clang+W32+NEUTRAL`; the C10 tool sweep spells keys in all five
+    accepted styles.
+  * *C16-I*: a one-off path in the very first init of a process - "cold" fault injection: one freshly forked process per
+    case, the faulted init is the first library call the process ever makes (`vh_fork_each_case`).
+  * *C17-J*: contexts obtained with `mmap` and released with `munmap` never reach `free()` - the allocator monitor now wraps
+    `mmap`/`mmap64`/`munmap` too (logged, can be made to fail, scanned with `process_vm_readv` when unmapped, counted for
+    the leak check).
+  * *C19-I, C19-J*: more refused-length classes for the Arduino classes (0, NULL with a wrong length, every Mantis length
+    other than 8, lengths that differ only in bits 8+ or 16+).
+  * *C20-I*: inputs fed through a named pipe in irregular pieces (short reads in mid-stream).
+  Caught at once in round 5: C01-J, C02-I, C03-J (by C10/C14), C06-I, C06-J, C07-J, C08-I, C08-J, C09-I, C09-J (by C01/C03),
+  C10-I, C11-I, C11-J, C12-J, C13-I, C14-J, C15-I, C15-J (by C16), C16-J, C17-I, C18-J, C20-J.
 
 ### 9.7 Behaviour-preserving changes (false-alarm trials)
 
